@@ -166,15 +166,12 @@ func listDiamondsChan(repo string, stores context2.Stores, opts ...Option) (chan
 	keysChan := make(chan keyBatchEvent, 1)
 
 	iterator := func(next string) ([]string, string, error) {
-		return basenameKeyFilter("diamond-")(
-			// restrain result to diamond descriptors (in any state)
-			GetDiamondStore(stores).KeysPrefix(backgroundContexter(), next, model.GetArchivePathPrefixToDiamonds(repo), "", settings.batchSize),
-		)
+		return GetDiamondStore(stores).KeysPrefix(backgroundContexter(), next, model.GetArchivePathPrefixToDiamonds(repo), "", settings.batchSize)
 	}
 
-	// starting keys retrieval
+	// starting keys retrieval: restrain result to diamond descriptors (in any state)
 	wg.Add(1)
-	go fetchKeys(iterator, unfilteredKeysChan, doneWithKeysChan, &wg) // scan for key batches
+	go fetchKeys(iterator, unfilteredKeysChan, doneWithKeysChan, &wg, basenameKeyFilter("diamond-")) // scan for key batches
 
 	// keys state filtering & merging
 	wg.Add(1)
